@@ -1009,8 +1009,8 @@ CHECKS = {
     "C08": {
         "bin": "c08",
         "level": "fault_enumeration",
-        "quick": {"shards": 19, "budget_s": 35, "min_evaluations": 100},
-        "thorough": {"shards": 19, "budget_s": 1500, "min_evaluations": 6000},
+        "quick": {"shards": 20, "budget_s": 35, "min_evaluations": 100},
+        "thorough": {"shards": 20, "budget_s": 1500, "min_evaluations": 6000},
         "rule": (
             "19 (operation kind x state class) pairs on TA -> p -> c: ROA "
             "delta (steady / during roll), a REFUSED ROA delta (its only "
